@@ -55,6 +55,7 @@ def defined_loop(defs, extra=None, shapes=None, **kw):
 
 class World:
     def __init__(self):
+        from . import lib_text  # noqa: registers text-line handlers
         self.bind = Binder()
         self.lib = dict(L.LIB)
         self.methods = dict(L.METHODS)
